@@ -21,7 +21,7 @@ def outcome(src, spec):
     try:
         with open(os.path.join(d, "m.py"), "w") as fh:
             fh.write(src)
-        (_, _, blocks), = pytrans.translate_blocks(d, spec).values()
+        (_, _, _, blocks), = pytrans.translate_blocks(d, spec).values()
         (_, text, err), = blocks
         return text, err
     finally:
@@ -36,7 +36,7 @@ CASES = [
      spec_for(LF, "list[float]"), "second name"),
     ("in-place update of an argument", "def f(a):\n    a[0] = 1.0\n    return a\n", spec_for(LF, "list[float]"), "argument"),
     ("append to an argument", "def f(a):\n    a.append(1.0)\n    return a\n", spec_for(LF, "list[float]"), "argument"),
-    ("unknown function", "def f(a):\n    return sorted(a)\n", spec_for(LF, "list[float]"), "not a translated function"),
+    ("unknown function", "def f(a):\n    return frobnicate(a)\n", spec_for(LF, "list[float]"), "not a translated function"),
     ("unknown method", "def f(a):\n    return a.index(1.0)\n", spec_for(LF, "int"), "not a translated function"),
     ("break", "def f(a):\n    s = 0.0\n    for x in a:\n        break\n    return s\n", spec_for(LF, "float"), "break"),
     ("loop variable used after the loop", "def f(a):\n    for x in a:\n        pass\n    return x\n", spec_for(LF, "float"), "not (definitely) bound"),
@@ -57,6 +57,49 @@ CASES = [
     ("try body that updates a bound variable in several statements",
      "def f(a):\n    s = 0.0\n    try:\n        s = a[0]\n        s = s / a[1]\n    except ZeroDivisionError:\n        s = 1.0\n    return s\n",
      spec_for(LF, "float"), "bound before the try"),
+    # ---- second round
+    ("tuple swap of list elements translates", "def f(a):\n    b = [x for x in a]\n    b[0], b[1] = b[1], b[0]\n    return b\n",
+     spec_for(LF, "list[float]"), None),
+    ("int used as a condition translates", "def f(a):\n    n = len(a)\n    if n:\n        return 1.0\n    return 0.0\n", spec_for(LF, "float"), None),
+    ("float('inf') without the spec flag", "def f(a):\n    return float('inf')\n", spec_for(LF, "float"), "infinity_params"),
+    ("float('inf') with the spec flag translates", "def f(a):\n    return float('inf')\n",
+     spec_for(LF, "float", infinity_params=True), None),
+    ("float('nan')", "def f(a):\n    return float('nan')\n", spec_for(LF, "float", infinity_params=True), "other than"),
+    ("enumerate loop that writes the current element translates",
+     "def f(a):\n    b = [x for x in a]\n    for i, x in enumerate(b):\n        b[i] = x + 1.0\n    return b\n", spec_for(LF, "list[float]"), None),
+    ("enumerate loop that writes another element",
+     "def f(a):\n    b = [x for x in a]\n    for i, x in enumerate(b):\n        b[i + 1] = x\n    return b\n", spec_for(LF, "list[float]"),
+     "modified in the loop"),
+    ("enumerate loop that appends to the iterated list",
+     "def f(a):\n    b = [x for x in a]\n    for i, x in enumerate(b):\n        b[i] = x\n        b.append(x)\n    return b\n",
+     spec_for(LF, "list[float]"), "modified in the loop"),
+    ("tuple indexed by a variable", "def f(a):\n    s = 0.0\n    for p in zip(a, a):\n        for k in range(2):\n            s += p[k]\n    return s\n",
+     spec_for(LF, "float"), "literal"),
+    ("nested function missing from the spec", "def f(a):\n    def g(x):\n        return x\n    return g(a[0])\n", spec_for(LF, "float"), "locals"),
+    ("nested function translates", "def f(a):\n    def g(x):\n        return x + 1.0\n    return g(a[0])\n",
+     spec_for(LF, "float", locals={"g": {"params": {"x": "float"}, "returns": "float"}}), None),
+    ("nested function whose free variable is assigned later",
+     "def f(a):\n    c = 1.0\n    def g(x):\n        return x + c\n    c = 2.0\n    return g(a[0])\n",
+     spec_for(LF, "float", locals={"g": {"params": {"x": "float"}, "returns": "float"}}), "assigned after the def"),
+    ("nested function that updates its argument in place",
+     "def f(a):\n    def g(h, x):\n        h.append(x)\n        return h\n    return g([], a[0])\n",
+     spec_for(LF, "list[float]", locals={"g": {"params": {"h": "list[float]", "x": "float"}, "returns": "list[float]"}}), "argument"),
+    ("owned nested function called directly",
+     "def f(a):\n    def g(h, x):\n        h.append(x)\n        return h\n    return g([], a[0])\n",
+     spec_for(LF, "list[float]", locals={"g": {"params": {"h": "list[float]", "x": "float"}, "returns": "list[float]", "owned": ["h"]}}),
+     "reduce"),
+    ("owned nested function in reduce with a fresh initial value translates",
+     "def f(a):\n    def g(h, x):\n        h.append(x)\n        return h\n    return reduce(g, a, [])\n",
+     spec_for(LF, "list[float]", locals={"g": {"params": {"h": "list[float]", "x": "float"}, "returns": "list[float]", "owned": ["h"]}}),
+     None),
+    ("owned nested function in reduce over a visible list",
+     "def f(a):\n    def g(h, x):\n        h.append(x)\n        return h\n    b = [x for x in a]\n    c = reduce(g, a, b)\n    return b\n",
+     spec_for(LF, "list[float]", locals={"g": {"params": {"h": "list[float]", "x": "float"}, "returns": "list[float]", "owned": ["h"]}}),
+     "fresh"),
+    ("nested function that updates an outer list",
+     "def f(a):\n    b = [x for x in a]\n    def g(x):\n        b.append(x)\n        return x\n    return g(a[0])\n",
+     spec_for(LF, "float", locals={"g": {"params": {"x": "float"}, "returns": "float"}}), "enclosing"),
+    ("sorted() of floats is not a primitive", "def f(a):\n    return sorted(a)\n", spec_for(LF, "list[float]"), "sorted() of"),
 ]
 
 
